@@ -489,8 +489,8 @@ CHECKS = {
                  "state, and once every reply and push is delivered and nothing runs both return the latest state; "
                  "non-trivial = at least one stored version instance had two or more Save executions against it; distinct = distinct event-log hash"),
         "parts": [
-            {"module": "om", "scenario": "om", "variant": "json", "quick": 6000, "thorough": 300000},
-            {"module": "om", "scenario": "om", "variant": "hash", "quick": 6000, "thorough": 300000},
+            {"module": "om", "scenario": "om", "variant": "json", "quick": 6000, "thorough": 500000},
+            {"module": "om", "scenario": "om", "variant": "hash", "quick": 6000, "thorough": 500000},
             {"module": "om", "scenario": "om", "variant": "hash,clearptr", "quick": 400, "thorough": 15000},
             {"module": "om", "scenario": "om", "variant": "hash,alias", "quick": 400, "thorough": 15000},
         ],
